@@ -6,16 +6,42 @@ import (
 	"verif/sim/decode"
 )
 
+// C16: untrusted bytes are decoded or rejected, never crash the node. Partial scope by design:
+// only seeded STRUCTURED corruption of valid encodings (plus the stateful multiplexer surface and
+// the stream surface of the runtime host protocol) is applied; "for all byte strings" with
+// coverage guidance is fuzzing and is not claimed.
+//
+// The three batches are sized so that every worker gets through all of them within its budget on
+// a loaded machine (quick: mux about 40 %, decoders about 30 %, stream about 30 % of the time).
 func init() {
 	reg(&core.Property{
 		ID: "C16", Level: "exploration",
 		Batches: []core.Batch{
 			{Name: "mux", Engine: chain.Engine{Prop: "C16"}, Quick: 320, Thorough: 4000,
-				Rule: "a run is non-trivial when at least three heights were produced, at least one corrupted transaction was fed to CheckTx and at least one was included in a block"},
+				Rule: "a run is non-trivial when at least three heights were produced, at least one corrupted transaction was fed to CheckTx of a live multiplexer and at least one was included in a block"},
 			{Name: "decoders", Engine: decode.DecoderEngine{}, Quick: 1280, Thorough: 20000,
-				Rule: "a run is non-trivial when at least one mutant differing from its valid original was presented and at least one was rejected"},
+				Rule: "a run is non-trivial when at least one mutant differing from its valid original was presented at a decode/verify entry point and at least one was rejected"},
 			{Name: "stream", Engine: decode.StreamEngine{}, Quick: 640, Thorough: 8000,
-				Rule: "a run is non-trivial when at least one valid request/response exchange completed over a connection of the scenario"},
+				Rule: "a run is non-trivial when at least one valid request/response exchange completed over a connection of the scenario (every scenario holds 12 to 32 connection lifecycles)"},
+		},
+		Real: append(append([]string{}, chainReal...),
+			"[mux] CheckTx / PrepareProposal / ProcessProposal / DeliverTx of the live multiplexer with all method handlers (staking, registry, governance, roothash, vault, key manager secrets and churp, beacon, consensus meta)",
+			"[decoders] exported decode and verify entry points: mkvs node/key UnmarshalBinary, syncer.Proof + ProofVerifier (v0, v1), writelog, checkpoint Metadata and Restorer.RestoreChunk on a real scratch NodeDB, commitment.ExecutorCommitment / Proposal / roothash Evidence (ValidateBasic, Verify), node.MultiSignedNode.Open + Node.ValidateBasic + registry.VerifyRegisterNodeArgs, CapabilityTEE.Verify / SGXAttestation / SGXConstraints, entity.SignedEntity.Open + registry.VerifyRegisterEntityArgs, registry.Runtime.ValidateBasic + VerifyRuntime + VerifyRuntimeNew/Update, pcs.Quote.UnmarshalBinary / Verify, QuoteBundle.Verify, TCB collateral JSON, ias.AVRBundle.Open / DecodeAVR, consensus SignedTransaction.Open + SanityCheck + body decode of every registered method",
+			"[stream] runtime/host/protocol Connection (InitHost, InitGuest, Call, Close, reader/writer/handler goroutines) and the common/cbor MessageReader/MessageWriter framing",
+			"recorded SGX/TDX quotes, TCB infos, QE identities, certificate chains and IAS reports of go/common/sgx/{pcs,ias}/testdata (read from the repository at run time); everything else in the corpus is encoded at run time from real objects (real tree, real checkpoint, real signatures)",
+		),
+		Stub: append(append([]string{}, chainStub...),
+			"[mux] the Byzantine client and proposer: the harness corrupts valid signed transactions of the running simulation, re-signs corrupted inner transactions with the sender's key, calls CheckTx itself and puts the bytes into the simulated network's pool",
+			"[stream] the peer and the transport: an in-memory net.Conn whose read slicing, write stalls and write-deadline expiry are driven by the sequential peer script (no wall-clock timeouts except generous watchdogs); testing/synctest is not available outside tests, so the connection's goroutines are real and every scenario runs in a child process so that a panic in them is attributed instead of killing the worker",
+			"[decoders] registry state lookups (runtime / node lookup stubs holding the corpus' own descriptors)",
+		),
+		Assumptions: []string{
+			"only seeded structured corruption of valid encodings is applied (CBOR item-tree operators: length edits, indefinite lengths, nesting bombs, duplicate and reordered keys, huge declared sizes with short bodies, truncation at and inside items, type confusion, tags, trailing data, special floats, non-canonical widths, negative integers, key types, nulls, dropped fields, splices, large blobs, invalid UTF-8, simple values; byte-level operators for the hand-written binary formats; deep-proof, fragmented-stream and over-limit generators); no coverage guidance, no claim for all byte strings",
+			"bounds per call: 2 s wall clock, 256 MiB heap allocation, 8 MiB goroutine stack growth, 4096 call frames at a Read callback; an excess counts only if it persists on re-measurement (best of three fresh attempts; a garbage collection precedes each so that stack growth is visible again)",
+			"a consumer's own order is respected: functions that a consumer calls only after a validation step succeeded are called only then",
+			"[mux] system methods (block metadata) are fed to CheckTx only; their delivery in blocks is the engine's own Byzantine-proposal fault; a recovered panic inside PrepareProposal (logged by the multiplexer, which then proposes an empty block) is reported as a violation",
+			"[mux] the 'valid transactions still succeed' clause is observed on the engine's own valid traffic after the first corrupted transaction (probe valid_tx_ok_after_garbage) and on a final valid transfer whose refusal counts only when it is not explained by fees, gas, balance or nonce",
+			"[stream] a connection whose byte stream stands inside a frame after a fault (declared length longer than what was sent) is not expected to stay usable; it must still close without leaving goroutines",
 		},
 	})
 }
